@@ -29,8 +29,7 @@ func VerifC12Decimals() {
 	s1, s2 := 0, 0
 	light := nd.Param("light", 0) == 1 // the quick tier: four scale pairs and five expressions
 	if light {
-		// (10, 10): values a ten-billionth apart are different numbers
-		sp := [][2]int{{2, 2}, {1, 2}, {2, 0}, {0, 1}, {10, 10}}[nd.Choice("scales", 5)]
+		sp := [][2]int{{2, 2}, {1, 2}, {2, 0}, {0, 1}}[nd.Choice("scales", 4)]
 		s1, s2 = sp[0], sp[1]
 	} else {
 		s1, s2 = []int{0, 1, 2, 10}[nd.Choice("scale1", 4)], []int{0, 1, 2, 10}[nd.Choice("scale2", 4)]
